@@ -19,6 +19,7 @@ import (
 	"fmt"
 	"io"
 	"os"
+	"runtime"
 	"sort"
 	"sync"
 	"testing"
@@ -53,6 +54,7 @@ type YieldStats struct {
 	Points   int // switch points reached while a group was in progress (outside critical sections)
 	InLock   int // log lines written while the lock was held (no switch)
 	Switches int // times the turn went to another call
+	Foreign  int // switch points and environment calls reached on a goroutine other than the calling one (ignored by the gate)
 }
 
 type gate struct {
@@ -65,6 +67,44 @@ type gate struct {
 	holder int
 	busy   func() bool
 	stats  YieldStats
+	// the goroutine on which each call of Attest was made.  The gate follows that goroutine only: a
+	// goroutine that the code under test starts itself (an environment call made in the background of
+	// the call) is not parked and gives no turn away; its environment calls are plain latencies.
+	main map[uint64]int
+}
+
+// goid: the number of the calling goroutine (from the first line of its stack, "goroutine N [...").
+func goid() uint64 {
+	var buf [64]byte
+	n := runtime.Stack(buf[:], false)
+	var id uint64
+	for _, c := range buf[len("goroutine "):n] {
+		if c < '0' || c > '9' {
+			break
+		}
+		id = id*10 + uint64(c-'0')
+	}
+	return id
+}
+
+// register: the calling goroutine is the one on which run i calls Attest.
+func (g *gate) register(i int) {
+	if g == nil {
+		return
+	}
+	g.mu.Lock()
+	g.main[goid()] = i
+	g.mu.Unlock()
+}
+
+// caller: the run whose call of Attest was made on the calling goroutine, -1 for any other goroutine.
+func (g *gate) caller() int {
+	g.mu.Lock()
+	defer g.mu.Unlock()
+	if i, ok := g.main[goid()]; ok {
+		return i
+	}
+	return -1
 }
 
 func (g *gate) now() uint64 { return uint64(time.Since(g.base) / time.Millisecond) }
@@ -127,7 +167,16 @@ func (g *gate) yield() {
 	if g == nil {
 		return
 	}
+	me := goid()
 	g.mu.Lock()
+	if i, ok := g.main[me]; !ok || i != g.holder {
+		// a goroutine started by the code under test, or a call that does not have the turn
+		if !ok && g.busy != nil { // (busy is set once the service is constructed)
+			g.stats.Foreign++
+		}
+		g.mu.Unlock()
+		return
+	}
 	if g.holder < 0 || len(g.parked) == 0 {
 		g.mu.Unlock()
 		return
@@ -171,6 +220,15 @@ func (g *gate) leave(i int) {
 
 // pause is the latency of an environment call of run i.
 func (e *env) pause(i int, ms uint64) {
+	if e.gate != nil && e.gate.caller() != i {
+		// an environment call made on a goroutine of the code's own making (in the background of the
+		// call of Attest): a plain latency, the call itself keeps or waits for its turn as before
+		e.gate.mu.Lock()
+		e.gate.stats.Foreign++
+		e.gate.mu.Unlock()
+		sleepMs(ms)
+		return
+	}
 	e.gate.leave(i)
 	sleepMs(ms)
 	e.gate.enter(i)
@@ -252,7 +310,7 @@ func RunHistoryYield(t *testing.T, yh YHistory) (Observed, YieldStats) {
 	defer watchdog.Stop()
 	started := time.Now()
 	synctest.Test(t, func(t *testing.T) {
-		g := &gate{base: time.Now(), ties: map[uint64]bool{}, turns: yh.Turns, parked: map[int]chan struct{}{}, holder: -1}
+		g := &gate{base: time.Now(), ties: map[uint64]bool{}, turns: yh.Turns, parked: map[int]chan struct{}{}, holder: -1, main: map[uint64]int{}}
 		for _, x := range tieList {
 			g.ties[x] = true
 		}
@@ -265,7 +323,7 @@ func RunHistoryYield(t *testing.T, yh YHistory) (Observed, YieldStats) {
 		svc, err := standardattester.New(ctx,
 			standardattester.WithLogLevel(zerolog.TraceLevel),
 			standardattester.WithMonitor(nullmetrics.New()),
-			standardattester.WithProcessConcurrency(1),
+			standardattester.WithProcessConcurrency(h.Concurrency()),
 			standardattester.WithChainTime(yieldChainTime{mocks.NewChainTime(h.SPE), g}),
 			standardattester.WithSpecProvider(specProvider{h.SPE}),
 			standardattester.WithAttestationDataProvider(e),
@@ -296,6 +354,7 @@ func RunHistoryYield(t *testing.T, yh YHistory) (Observed, YieldStats) {
 						results[i] = fmt.Sprintf("panic: %v", r)
 					}
 				}()
+				g.register(i)
 				sleepMs(h.Runs[i].Timing.Start)
 				g.enter(i)
 				atts, err := svc.Attest(context.WithValue(ctx, runKey{}, i), duty)
